@@ -246,6 +246,109 @@ def opEps : P String := do
   let ws ← pMany n pFloat
   pure (join ((Sgd.makeEpochsPerSample ws ne).map fb))
 
+def piF : Float := 3.141592653589793
+
+/-- `metric <name> <n> x… y… [extras]` → value -/
+def opMetric : P String := do
+  let name ← tok
+  let n ← pNat
+  let x ← pMany n pFloat
+  let y ← pMany n pFloat
+  let T := floatT
+  let r : Option Float ← match name with
+    | "euclidean" => pure (some (Metrics.euclidean T x y))
+    | "manhattan" => pure (some (Metrics.manhattan x y))
+    | "chebyshev" => pure (some (Metrics.chebyshev x y))
+    | "minkowski" => do let p ← pFloat; pure (some (Metrics.minkowski T p x y))
+    | "seuclidean" => do let sg ← pMany n pFloat; pure (some (Metrics.seuclidean T sg x y))
+    | "wminkowski" => do
+        let w ← pMany n pFloat; let p ← pFloat; pure (some (Metrics.wminkowski T w p x y))
+    | "mahalanobis" => do let v ← pMat n n pFloat; pure (some (Metrics.mahalanobis T v x y))
+    | "canberra" => pure (some (Metrics.canberra x y))
+    | "braycurtis" => pure (some (Metrics.brayCurtis x y))
+    | "cosine" => pure (some (Metrics.cosine T x y))
+    | "correlation" => pure (some (Metrics.correlation T x y))
+    | "hellinger" => pure (some (Metrics.hellinger T x y))
+    | "haversine" => pure (Metrics.haversine T x y)
+    | "poincare" => pure (some (Metrics.poincare T x y))
+    | "symmetric_kl" => pure (some (Metrics.symmetricKl T 1e-11 x y))
+    | "ll_dirichlet" => pure (some (Metrics.llDirichlet T piF 1e8 x y))
+    | "hamming" => pure (some (Metrics.hamming x y))
+    | "jaccard" => pure (some (Metrics.jaccardC (Metrics.counts x y)))
+    | "matching" => pure (some (Metrics.matchingC (Metrics.counts x y)))
+    | "dice" => pure (some (Metrics.diceC (Metrics.counts x y)))
+    | "kulsinski" => pure (some (Metrics.kulsinskiC (Metrics.counts x y)))
+    | "rogerstanimoto" => pure (some (Metrics.rogersTanimotoC (Metrics.counts x y)))
+    | "russellrao" => pure (some (Metrics.russellRaoC (Metrics.counts x y)))
+    | "sokalmichener" => pure (some (Metrics.sokalMichenerC (Metrics.counts x y)))
+    | "sokalsneath" => pure (some (Metrics.sokalSneathC (Metrics.counts x y)))
+    | "yule" => pure (some (Metrics.yuleC (Metrics.counts x y)))
+    | _ => throw s!"metric:{name}"
+  pure (match r with | some v => fb v | none => "err")
+
+def pSVec : P (Sparse.SVec Float) := do
+  let n ← pNat
+  pMany n (do let i ← pNat; let v ← pFloat; pure (i, v))
+
+/-- `smetric <name> <nfeat> <x: n (i v)*> <y: n (i v)*> [p]` → value -/
+def opSMetric : P String := do
+  let name ← tok
+  let nf ← pNat
+  let x ← pSVec
+  let y ← pSVec
+  let T := floatT
+  let r : Float ← match name with
+    | "euclidean" => pure (Sparse.sEuclidean T x y)
+    | "manhattan" => pure (Sparse.sManhattan x y)
+    | "chebyshev" => pure (Sparse.sChebyshev x y)
+    | "minkowski" => do let p ← pFloat; pure (Sparse.sMinkowski T p x y)
+    | "hamming" => pure (Sparse.sHamming nf x y)
+    | "canberra" => pure (Sparse.sCanberra x y)
+    | "braycurtis" => pure (Sparse.sBrayCurtis x y)
+    | "jaccard" => pure (Sparse.sJaccard x y)
+    | "matching" => pure (Sparse.sMatching nf x y)
+    | "dice" => pure (Sparse.sDice x y)
+    | "kulsinski" => pure (Sparse.sKulsinski nf x y)
+    | "rogerstanimoto" => pure (Sparse.sRogersTanimoto nf x y)
+    | "russellrao" => pure (Sparse.sRussellRao nf x y)
+    | "sokalmichener" => pure (Sparse.sSokalMichener nf x y)
+    | "sokalsneath" => pure (Sparse.sSokalSneath x y)
+    | "cosine" => pure (Sparse.sCosine T x y)
+    | "hellinger" => pure (Sparse.sHellinger T x y)
+    | "correlation" => pure (Sparse.sCorrelation T nf x y)
+    | "ll_dirichlet" => pure (Sparse.sLlDirichlet T piF 1e8 x y)
+    | _ => throw s!"smetric:{name}"
+  pure (fb r)
+
+/-- `grad <name> <n> x… y… [extras]` → `d g…` -/
+def opGrad : P String := do
+  let name ← tok
+  let n ← pNat
+  let x ← pMany n pFloat
+  let y ← pMany n pFloat
+  let T := floatT
+  let r : Option (Float × List Float) ← match name with
+    | "euclidean" => pure (some (Grad.euclideanGrad T 1e-6 x y))
+    | "seuclidean" => do let sg ← pMany n pFloat; pure (some (Grad.seuclideanGrad T 1e-6 sg x y))
+    | "manhattan" => pure (some (Grad.manhattanGrad x y))
+    | "chebyshev" => pure (some (Grad.chebyshevGrad x y))
+    | "minkowski" => do let p ← pFloat; pure (some (Grad.minkowskiGrad T p x y))
+    | "wminkowski" => do
+        let w ← pMany n pFloat; let p ← pFloat; pure (some (Grad.wminkowskiGrad T w p x y))
+    | "mahalanobis" => do let v ← pMat n n pFloat; pure (some (Grad.mahalanobisGrad T 1e-6 v x y))
+    | "canberra" => pure (some (Grad.canberraGrad x y))
+    | "braycurtis" => pure (some (Grad.brayCurtisGrad x y))
+    | "cosine" => pure (some (Grad.cosineGrad T x y))
+    | "correlation" => pure (some (Grad.correlationGrad T x y))
+    | "hellinger" => pure (some (Grad.hellingerGrad T x y))
+    | "haversine" => pure (Grad.haversineGrad T piF 1e-6 x y)
+    | "hyperboloid" => pure (some (Grad.hyperboloidGrad T 1e-8 x y))
+    | "symmetric_kl" => pure (some (Grad.symmetricKlGrad T 1e-11 x y))
+    | "spherical_gaussian_energy" => pure (Grad.sphericalGaussianEnergyGrad T piF x y)
+    | "diagonal_gaussian_energy" => pure (Grad.diagonalGaussianEnergyGrad T piF x y)
+    | _ => throw s!"grad:{name}"
+  pure (match r with | some (d, g) => join (fb d :: g.map fb) | none => "err")
+
 def dispatch (op : String) : P String :=
   match op with
   | "knn" => opKnn
@@ -254,6 +357,9 @@ def dispatch (op : String) : P String :=
   | "sym" => opSym
   | "relations" => opRelations
   | "api" => opApi
+  | "metric" => opMetric
+  | "smetric" => opSMetric
+  | "grad" => opGrad
   | "tau" => opTau
   | "sgd" => opSgd
   | "eps" => opEps
